@@ -503,6 +503,7 @@ func (r *Resolver) resolve(ctx context.Context, rs *resolveState) (*dns.Msg, err
 		} else {
 			r.clearResolutionZoneFailure(rs.req.Question[0], rs.servers.Zone)
 		}
+		scrubNegative(resp, rs.servers.Zone)
 		if resp.Rcode == dns.RcodeNameError {
 			// A bare NXDOMAIN carries no denial proof. Under a signed
 			// chain that is a validation failure, not an answer: let the
@@ -1268,6 +1269,11 @@ func (r *Resolver) authority(ctx context.Context, req, resp *dns.Msg, parentDS [
 		// another.
 		return nil, ErrQuestion
 	}
+
+	// Every caller hands over a reply without an answer. What is left of it
+	// is relayed and cached as it stands, so it is reduced here, before
+	// anything reads it, to what the asked zone's servers can speak for.
+	scrubNegative(resp, zone)
 
 	if !req.CheckingDisabled {
 		if r.dnssec && !r.hasTrustAnchors() {
@@ -3372,6 +3378,29 @@ func (r *Resolver) clearAdditional(req, resp *dns.Msg, extra ...bool) *dns.Msg {
 	}
 
 	return resp
+}
+
+// scrubNegative reduces a reply that carries no answer to what the servers
+// of zone can speak for (RFC 2181 §5.4.1), the negative-path counterpart of
+// clearAdditional: authority records owned outside zone are dropped, and of
+// the additional section only the OPT record survives (it carries the
+// authority's Extended DNS Errors and client-subnet scope). A positive reply
+// has both sections cleared; without this a NODATA, NXDOMAIN or error reply
+// from an unsigned zone reached the client and the cache with whatever the
+// zone's server chose to say about other people's names.
+func scrubNegative(resp *dns.Msg, zone string) {
+	if len(resp.Ns) > 0 {
+		resp.Ns = dnsutil.FilterRRsToZone(resp.Ns, zone)
+	}
+	if len(resp.Extra) > 0 {
+		extra := make([]dns.RR, 0, 1)
+		for _, rr := range resp.Extra {
+			if rr.Header().Rrtype == dns.TypeOPT {
+				extra = append(extra, rr)
+			}
+		}
+		resp.Extra = extra
+	}
 }
 
 // upstreamClientSubnet returns the EDNS Client Subnet option the authority
